@@ -3,6 +3,8 @@
     the trace, i.e. the number of threads inside the critical section guarded by lock l. *)
 From Coq Require Import ZArith List String.
 From LV Require Import Base.Conc Base.Events Model.SpinLock Proofs.SpinLockProofs.
+From LV Require Model.Reentrant Proofs.ReentrantProofs.
+From LV Require Model.Locks Model.LocksArray Model.LocksInj Proofs.LocksProofs Proofs.LocksArrayProofs Proofs.LocksInjProofs.
 Import ListNotations.
 Local Open Scope Z_scope.
 Local Open Scope string_scope.
@@ -24,3 +26,91 @@ Example C22_spin_lock_nonvacuous :
   snd r = true /\
   List.length (filter (is_cli "enter") (map snd (fst r))) = 2%nat.
 Proof. vm_compute. split; reflexivity. Qed.
+
+(** ---------------------------------------------------------------------------------------------------
+    cds::sync::reentrant_spin_lock.  [ReentrantProofs.occ t l tr] = (#"enter l" - #"leave l" by thread t) =
+    nesting depth of t inside the critical section of l; [nestc] = (#"enter l" - #"rel l"): lock() calls
+    returned minus unlock() calls returned.  Client programs: arbitrary nests of lock() / try_lock() /
+    try_lock(n) on arbitrary locks, arbitrary depth, re-entrance included. *)
+
+(** mutual exclusion between different threads for EVERY schedule and arbitrary nesting depth *)
+Theorem C22_reentrant_mutex :
+  forall (fuel : nat) (ths : list (list Reentrant.op)) c,
+    Conc.reach (Reentrant.init_cfg fuel ths) c ->
+    forall l t t',
+      0 <= ReentrantProofs.occ t l (Conc.trace c) /\
+      (ReentrantProofs.occ t l (Conc.trace c) > 0 -> ReentrantProofs.occ t' l (Conc.trace c) > 0 -> t = t').
+Proof. exact ReentrantProofs.reentrant_mutex. Qed.
+Print Assumptions C22_reentrant_mutex.
+
+(** released only by the owner's last unlock: while thread t is inside at depth n >= 1, the lock word m_spin
+    is n (or n+1 while t is inside a lock()/unlock() call): never 0, so nobody else can acquire; and every
+    other thread is outside *)
+Theorem C22_reentrant_owner_release :
+  forall (fuel : nat) (ths : list (list Reentrant.op)) c,
+    Conc.reach (Reentrant.init_cfg fuel ths) c ->
+    forall l t, ReentrantProofs.occ t l (Conc.trace c) > 0 ->
+      ReentrantProofs.occ t l (Conc.trace c) <= Z.of_nat (Reentrant.spin (Conc.shared c) l)
+        <= ReentrantProofs.occ t l (Conc.trace c) + 1 /\
+      ReentrantProofs.occ t l (Conc.trace c) <= ReentrantProofs.nestc t l (Conc.trace c) /\
+      forall t', t' <> t -> ReentrantProofs.occ t' l (Conc.trace c) = 0.
+Proof. exact ReentrantProofs.reentrant_owner_release. Qed.
+Print Assumptions C22_reentrant_owner_release.
+
+(** conversely the lock word is 0 only when no thread is inside at any depth *)
+Theorem C22_reentrant_free_means_unused :
+  forall (fuel : nat) (ths : list (list Reentrant.op)) c,
+    Conc.reach (Reentrant.init_cfg fuel ths) c ->
+    forall l, Reentrant.spin (Conc.shared c) l = 0%nat -> forall t, ReentrantProofs.occ t l (Conc.trace c) = 0.
+Proof. exact ReentrantProofs.reentrant_free_means_unused. Qed.
+Print Assumptions C22_reentrant_free_means_unused.
+
+Definition is_acc (k : akind) (ok : bool) (e : ev) : bool :=
+  match e, k with
+  | EvAcc KFaa _ o, KFaa => Bool.eqb o ok
+  | EvAcc KCas _ o, KCas => Bool.eqb o ok
+  | _, _ => false
+  end.
+
+(** non-vacuity: thread 0 enters lock 0 three times nested (two re-entrances through fetch_add), thread 1
+    contends (one failed CAS) and enters twice afterwards *)
+Example C22_reentrant_nonvacuous :
+  let r := Reentrant.run_case [1; 50] [[[0;0;0;0;1;0]]; [[0;0]; [2;0]]] [0;0;0;0;1;1;0;1;1;0;0;1]%nat 1000 in
+  snd r = true /\
+  List.length (filter (is_cli "enter") (map snd (fst r))) = 5%nat /\
+  List.length (filter (is_acc KFaa true) (map snd (fst r))) = 2%nat /\
+  List.length (filter (is_acc KCas false) (map snd (fst r))) = 1%nat.
+Proof. vm_compute. repeat split; reflexivity. Qed.
+
+(** ---------------------------------------------------------------------------------------------------
+    cds::sync::lock_array< spin_lock, mod_select_policy >: per-cell mutual exclusion for every array size,
+    every client program (nests of lock(hint) / try_lock(hint) / lock_all, any hints), every schedule.
+    The events carry the cell = hint mod size. *)
+Theorem C22_lock_array_mutex :
+  forall (size fuel : nat) (ths : list (list Locks.op)) c,
+    Conc.reach (LocksArray.init_cfg size fuel ths) c ->
+    forall cell, 0 <= occ cell (Conc.trace c) <= 1 /\
+                 (occ cell (Conc.trace c) = 1 -> get_spin (Conc.shared c) cell = true).
+Proof. exact LocksArrayProofs.lock_array_mutex. Qed.
+Print Assumptions C22_lock_array_mutex.
+
+Example C22_lock_array_nonvacuous :
+  let r := LocksArray.run_case [2; 50] [[[0;4;0;3]]; [[2;0;1;5]; [1;5]]] [0;0;1;1;0;1;0;0;1]%nat 1000 in
+  snd r = true /\
+  List.length (filter (is_cli "enter") (map snd (fst r))) = 5%nat /\
+  List.length (filter (is_cli "fail") (map snd (fst r))) = 1%nat.
+Proof. vm_compute. repeat split; reflexivity. Qed.
+
+(** cds::sync::injecting_monitor< spin_lock > (+ monitor_scoped_lock): per-node mutual exclusion *)
+Theorem C22_injmon_mutex :
+  forall (nnodes fuel : nat) (ths : list (list Locks.op)) c,
+    Conc.reach (LocksInj.init_cfg nnodes fuel ths) c ->
+    forall node, 0 <= occ node (Conc.trace c) <= 1 /\
+                 (occ node (Conc.trace c) = 1 -> get_spin (Conc.shared c) node = true).
+Proof. exact LocksInjProofs.injmon_mutex. Qed.
+Print Assumptions C22_injmon_mutex.
+
+Example C22_injmon_nonvacuous :
+  let r := LocksInj.run_case [2; 50] [[[0;0;3;1]]; [[3;1]; [0;0]]] [0;0;1;1;0;1;0;0;1]%nat 1000 in
+  snd r = true /\ List.length (filter (is_cli "enter") (map snd (fst r))) = 4%nat.
+Proof. vm_compute. repeat split; reflexivity. Qed.
